@@ -2170,6 +2170,9 @@ class BSP:
                     face.smoothing_groups,
                 ))
             if hammer_ids:
+                # If no face has an ID the map doesn't store them, don't invent a lump of zeros.
+                if all(face.hammer_id is None for face in faces):
+                    hammer_ids = []
                 self.lumps[BSP_LUMPS.FACEIDS].data = write_array(self.lump_layout['FACEID'], hammer_ids)
         return face_buf.getvalue()
 
